@@ -64,6 +64,7 @@ impl JulianDay {
   pub fn get_solar_time(&self) -> SolarTime {
     let mut d: isize = (self.day + 0.5) as isize;
     let mut f: f64 = self.day + 0.5 - (d as f64);
+    let n: isize = d;
 
     if d >= 2299161 {
       let c: isize = (((d as f64) - 1867216.25) / 36524.25) as isize;
@@ -74,7 +75,7 @@ impl JulianDay {
     d -= (365.25 * (year as f64)) as isize;
     let mut month: isize = ((d as f64) / 30.601) as isize;
     d -= (30.601 * (month as f64)) as isize;
-    let mut day: isize = d;
+    let day: isize = d;
     if month > 13 {
       month -= 13;
       year -= 4715;
@@ -101,8 +102,8 @@ impl JulianDay {
       hour += 1
     }
     if hour > 23 {
-      hour -= 24;
-      day += 1
+      // rounded up to 24:00:00, i.e. 00:00:00 of the next day number (day of month + 1 may not exist)
+      return Self::from_julian_day((n + 1) as f64 - 0.5).get_solar_time();
     }
     SolarTime::from_ymd_hms(year, month as usize, day as usize, hour as usize, minute as usize, second as usize)
   }
